@@ -50,3 +50,13 @@ func init() {
 		Runs: []Run{{Pkg: hp + "c07", Variant: "real"}},
 	}
 }
+
+func init() {
+	specs["C01"] = &Spec{
+		Title: "Every listed recipient decrypts to the exact plaintext",
+		Level: "exploration",
+		Rule: "bounded-exhaustive enumeration of (recipient list, plaintext length, armor, write segmentation, identity list with the matching identity at every position among non-matching identities of every type) on the real build (lengths around multiples of 64 KiB) and on a scaled build of the same sources (ChunkSize=16: every length 0..3C+1 and lengths crossing the 256-chunk counter carry); oracle: Decrypt succeeds, exact bytes, clean EOF, identities consulted in order and none after the first match, and the independent reference decoder opens the same file. distinct_nontrivial counts distinct (list,size,armor,segmentation) files.",
+		Assumptions: commonAssume,
+		Runs: []Run{{Pkg: hp + "c01", Variant: "real"}, {Pkg: hp + "c01", Variant: "scaled16", Optional: true}},
+	}
+}
